@@ -146,7 +146,7 @@ func resolveFieldRenames(pkgs map[string]*packages.Package, ref []structRecord) 
 }
 
 var (
-	tablesDir string                    // set by main
+	tablesDir string                     // set by main
 	funcAlias = map[*types.Func]string{} // function object of the analysed tree -> listed simple name (without receiver)
 	declAlias = map[*ast.Ident]string{}  // name identifier of its declaration -> listed simple name
 	renameLog []string
